@@ -685,8 +685,12 @@ func failedReadsThenValid(res *vlib.Result, root *vlib.Rand) {
 				res.Eval(1)
 				res.Obs("valid_requests_after_failed_reads", 1)
 				rec := map[string]interface{}{"case": fmt.Sprintf("failed-reads/%d/%d", i, k), "preceding_requests": form + " on " + ep, "probe": p.name, "reference_reply": p.ref}
-				if err != nil || len(rs) != 1 || rs[0].Err != "" {
-					res.Violatef("c14:later-requests-mishandled:no-reply-after-failed-body-read", rec, "%s after 8 %s requests: %v %+v", p.name, form, err, rs)
+				if err != nil || len(rs) != 1 {
+					res.Inconcl(fmt.Sprintf("failed-reads/%d/%d: cannot connect: %v", i, k, err))
+					return
+				}
+				if rs[0].Err != "" {
+					res.Violatef("c14:later-requests-mishandled:no-reply-after-failed-body-read", rec, "%s after 8 %s requests: %+v", p.name, form, rs[0])
 					return
 				}
 				rec["reply"] = rs[0]
@@ -721,14 +725,14 @@ func metricsConcurrent(res *vlib.Result) {
 		res.Eval(1)
 		res.Obs("metrics_log_reads", 1)
 		rec := map[string]interface{}{"case": id, "simultaneous_requests": par, "log_bytes_before_start": len(b.prefill)}
-		if err != nil || len(rs) != 1 || rs[0].Err != "" {
-			e := fmt.Sprint(err)
-			if len(rs) == 1 {
-				e = rs[0].Err
-				rec["status"] = rs[0].Status
-				rec["body_bytes_received"] = len(rs[0].body)
-			}
-			res.Violatef("c14:no-well-formed-response:/metrics:concurrent-reads", rec, "GET /metrics among %d simultaneous ones: %s", par, e)
+		if err != nil || len(rs) != 1 {
+			res.Inconcl(fmt.Sprintf("%s: cannot connect: %v", id, err))
+			return
+		}
+		if rs[0].Err != "" {
+			rec["status"] = rs[0].Status
+			rec["body_bytes_received"] = len(rs[0].body)
+			res.Violatef("c14:no-well-formed-response:/metrics:concurrent-reads", rec, "GET /metrics among %d simultaneous ones: %s", par, rs[0].Err)
 			return
 		}
 		if rs[0].Status != 200 {
